@@ -269,4 +269,52 @@ theorem store_hints (t : PStrTy) {h1 h2 : Nat} (s : Bytes) (a : (checkHints h1 "
     | none => rw [e2] at b; cases b
     | some _ => rfl
 
+/-! ### relation to the `string` plug-in (`storePStr`) -/
+
+/-- what the `string` plug-in stores when it is given the lower-cased C string, the hex-string plug-in stores from the input -/
+theorem store_of_storePStr {t : PStrTy} {hints : Nat} {s x : Bytes} (h : storePStr t hints (lower (cstr s)) = .ok x) :
+    store t hints s = .ok x := by
+  obtain ⟨rfl, _⟩ := storePStr_ok h
+  unfold storePStr at h
+  cases hs : storeStr t.length hints (lower (cstr s)) with
+  | error e => rw [hs] at h; cases h
+  | ok y =>
+    rw [hs] at h
+    simp only at h
+    unfold storeStr at hs
+    split at hs
+    · cases hs
+    · cases hh : checkHints hints "string" with
+      | none => rw [hh] at hs; cases hs
+      | some e =>
+        rw [hh] at hs
+        simp only at hs
+        split at hs
+        · rename_i hl
+          cases hd : decodeUtf8 (lower (cstr s)) with
+          | none => rw [hd] at h; cases h
+          | some cs =>
+            rw [hd] at h
+            simp only at h
+            by_cases hv : validatePatterns t.pats cs = true
+            · refine (store_ok_iff t hints s _).mpr ⟨by rw [hh]; rfl, rfl, hl, Or.inr ⟨cs, hd, (validate_iff _ _).mp hv⟩⟩
+            · rw [if_neg hv] at h; cases h
+        · cases hs
+
+/-- conversely a value the hex-string plug-in stores (type with at least one pattern) is a value of the `string` type with the same
+    restrictions, provided it passes the character check of the `string` plug-in, which the hex-string plug-in does not make -/
+theorem storePStr_of_store {t : PStrTy} {hints : Nat} {s x : Bytes} (h : store t hints s = .ok x) (hp : t.pats ≠ [])
+    (hc : checkChars (x.length + 1) x = true) : storePStr t hints x = .ok x := by
+  obtain ⟨hh, _, hl, hpat⟩ := (store_ok_iff t hints s x).mp h
+  obtain ⟨cs, hd, hall⟩ := hpat.resolve_left hp
+  unfold storePStr storeStr
+  rw [hc]
+  cases hh' : checkHints hints "string" with
+  | none => rw [hh'] at hh; cases hh
+  | some e =>
+    simp only [Bool.not_true, Bool.false_eq_true, if_false]
+    unfold LengthHolds at hl
+    rw [if_pos hl]
+    simp only [hd, (validate_iff _ _).mpr hall, if_true]
+
 end LyModel.Val.HexStr
